@@ -140,7 +140,7 @@ def gen_sync(rng):
     kind = rng.choice(["sync_none", "sync_raise", "sync_value", "coro_value", "coro_raise", "gen_value", "gen_raise",
                        "future_value", "future_exc", "coro_value", "coro_raise"])
     dur = rng.choice([0.0, 0.01, 0.5, 2.0])
-    timeout = rng.choice([None, None, 0.1, 1.0, 5.0])
+    timeout = rng.choice([None, None, 0, 0.0, 0.1, 1.0, 5.0])
     if timeout is not None and abs(timeout - dur) < 1e-3:
         timeout = timeout * 3
     return {"k": "sync", "kind": kind, "dur": dur, "timeout": timeout, "pre_raiser": rng.random() < 0.3,
@@ -174,6 +174,9 @@ def directed_cases():
                                 ("rm", 2), ("rm", 2), ("cb", 4, {"raise": False, "ret": "failfut", "nested": []}),
                                 ("cb", 5, B), ("fut", 6, "done", 0.001, B), ("sleep", 0.2), ("rm", 1)]}
     yield {"k": "sync", "kind": "coro_value", "dur": 2.0, "timeout": 0.1, "pre_raiser": True, "again": True}
+    # zero timeout is a timeout (boundary: `if timeout:` vs `if timeout is not None:`)
+    yield {"k": "sync", "kind": "coro_value", "dur": 0.4, "timeout": 0, "pre_raiser": False, "again": True}
+    yield {"k": "sync", "kind": "future_value", "dur": 0.4, "timeout": 0.0, "pre_raiser": False, "again": False}
 
 
 # ---------------------------------------------------------------------------
@@ -447,6 +450,7 @@ def run_sync_case(case, ctx):
             return 42
         if kind in ("coro_value", "coro_raise"):
             async def c():
+                obs["body"] = True
                 try:
                     await asyncio.sleep(dur)
                 except asyncio.CancelledError:
@@ -494,12 +498,18 @@ def run_sync_case(case, ctx):
                 ctx.violation("sync/function-not-called", "run_sync did not call the function", w)
             elif kind == "sync_value":
                 ctx.count("unspecified_run_sync_non_awaitable_result")
+            elif (timeout is not None and kind not in ("sync_none", "sync_raise", "sync_value")
+                  and abs(dur - timeout) < 1e-3):
+                # completion and deadline coincide: the statement does not order them
+                ctx.count("unspecified_run_sync_deadline_tie")
             elif expires:
                 ctx.count("run_sync_timeouts")
                 ctx.check(isinstance(err, asyncio.TimeoutError), "sync/timeout-does-not-raise-TimeoutError",
                           "run_sync timeout expired but TimeoutError was not raised", w)
                 if kind.startswith("coro"):
-                    ctx.check(obs["cancelled"], "sync/timeout-does-not-cancel-the-coroutine",
+                    # a zero timeout can expire before the coroutine body ever ran: then the task is
+                    # cancelled without the body observing anything
+                    ctx.check(obs["cancelled"] or not obs.get("body"), "sync/timeout-does-not-cancel-the-coroutine",
                               "run_sync raised on timeout but the coroutine never observed CancelledError", w)
                 elif kind.startswith("future"):
                     ctx.check(box["f"].cancelled(), "sync/timeout-does-not-cancel-the-future",
